@@ -87,4 +87,17 @@ mod verif_c10 {
         assert!(stop == (it + 1 > l1), "combined: disjunction of the members");
         kani::cover!(stop);
     }
+
+    /// native witness (never counted as proof): the time budget is compared as a DURATION -- a budget overrun by less than a whole second is overrun
+    #[test]
+    fn c10_wit_runtime_limit_is_a_duration() {
+        use std::time::{Duration, Instant};
+        let started = Instant::now().checked_sub(Duration::from_millis(700)).expect("the clock is at least 700 ms past its origin");
+        for (limit_ms, expect) in [(0u64, true), (100, true), (500, true), (650, true), (60_000, false), (3_600_000, false)] {
+            let m = TerminationModel::QueryRuntimeLimit { limit: Duration::from_millis(limit_ms), frequency: 1 };
+            assert_eq!(m.terminate_search(&started, 0, 0).unwrap(), expect, "700 ms after the start, budget {} ms", limit_ms);
+            let c = TerminationModel::Combined { models: vec![TerminationModel::IterationsLimit { limit: 1_000_000 }, m] };
+            assert_eq!(c.terminate_search(&started, 0, 0).unwrap(), expect, "inside a combined model: 700 ms after the start, budget {} ms", limit_ms);
+        }
+    }
 }
